@@ -27,22 +27,23 @@ var rec = ev.New("C05",
 func TestMain(m *testing.M) { code := m.Run(); rec.Flush(); os.Exit(code) }
 
 type Caller struct {
-	OffsetUs int `json:"off"`            // arrival offset in microseconds
-	Cancel   int `json:"cancel"`         // 0 none, 1 before arrival, 2 ~while waiting (after CancelUs), 3 shared ctx cancelled
-	CancelUs int `json:"cancel_us"`      // delay after arrival
-	OwnCtx   bool `json:"own_ctx"`       // derived context (else the shared one)
+	OffsetUs int  `json:"off"`       // arrival offset in microseconds
+	Cancel   int  `json:"cancel"`    // 0 none, 1 before arrival, 2 ~while waiting (after CancelUs), 3 shared ctx cancelled
+	CancelUs int  `json:"cancel_us"` // delay after arrival
+	OwnCtx   bool `json:"own_ctx"`   // derived context (else the shared one)
 }
 
 type Case struct {
-	Callers   []Caller `json:"callers"`
-	Shards    int      `json:"shards"` // 0 = no Shard func
-	MaxSize   int      `json:"max_size"`
-	WaitUs    int      `json:"wait_us"`
-	MaxDurUs  int      `json:"maxdur_us"`
-	Plan      []string `json:"plan"`
-	Limit     int      `json:"limit"` // 0 = no limiter
-	SharedCancelUs int `json:"shared_cancel_us"` // 0 = never
-	Yields    []int    `json:"yields,omitempty"` // microseconds to sleep at the k-th yield site hit
+	Callers         []Caller `json:"callers"`
+	Shards          int      `json:"shards"` // 0 = no Shard func
+	MixedShardTypes bool     `json:"mixed_shard_types,omitempty"`
+	MaxSize         int      `json:"max_size"`
+	WaitUs          int      `json:"wait_us"`
+	MaxDurUs        int      `json:"maxdur_us"`
+	Plan            []string `json:"plan"`
+	Limit           int      `json:"limit"`            // 0 = no limiter
+	SharedCancelUs  int      `json:"shared_cancel_us"` // 0 = never
+	Yields          []int    `json:"yields,omitempty"` // microseconds to sleep at the k-th yield site hit
 }
 
 type invocation struct {
@@ -102,7 +103,21 @@ func runCase(c Case) (nt bool, classes []string, err error) {
 		MaxDuration:  time.Duration(c.MaxDurUs) * time.Microsecond,
 	}
 	if c.Shards > 0 {
-		f.Shard = func(arg interface{}) interface{} { return arg.(int) % c.Shards }
+		// shard values of several comparable types, some of which print alike (int64(1), "1",
+		// struct{N int}{1}): they are different shards all the same
+		f.Shard = func(arg interface{}) interface{} {
+			sh := arg.(int) % c.Shards
+			if !c.MixedShardTypes {
+				return sh
+			}
+			switch sh % 3 {
+			case 0:
+				return int64(sh / 3)
+			case 1:
+				return fmt.Sprint(sh / 3)
+			}
+			return struct{ N int }{sh / 3}
+		}
 	}
 	f.Many = func(ctx context.Context, args []interface{}) ([]interface{}, error) {
 		mu.Lock()
@@ -330,10 +345,11 @@ func runCase(c Case) (nt bool, classes []string, err error) {
 func genCase(t *rapid.T) Case {
 	n := rapid.IntRange(1, 40).Draw(t, "n")
 	c := Case{
-		Shards:   rapid.SampledFrom([]int{0, 0, 1, 2, 3}).Draw(t, "shards"),
-		WaitUs:   rapid.SampledFrom([]int{200, 500, 1000, 2000}).Draw(t, "wait"),
-		MaxDurUs: rapid.SampledFrom([]int{1000, 3000, 10000}).Draw(t, "maxdur"),
-		Limit:    rapid.SampledFrom([]int{0, 0, 1, 2, 5}).Draw(t, "limit"),
+		Shards:          rapid.SampledFrom([]int{0, 0, 1, 2, 3, 4, 6}).Draw(t, "shards"),
+		MixedShardTypes: rapid.Bool().Draw(t, "mixedshards"),
+		WaitUs:          rapid.SampledFrom([]int{200, 500, 1000, 2000}).Draw(t, "wait"),
+		MaxDurUs:        rapid.SampledFrom([]int{1000, 3000, 10000}).Draw(t, "maxdur"),
+		Limit:           rapid.SampledFrom([]int{0, 0, 1, 2, 5}).Draw(t, "limit"),
 	}
 	c.MaxSize = rapid.SampledFrom([]int{0, 0, 1, 2, 3, 5, n}).Draw(t, "maxsize")
 	c.Plan = rapid.SliceOfN(rapid.SampledFrom([]string{"ok", "ok", "ok", "error", "panic", "short", "long", "slow"}), 0, 6).Draw(t, "plan")
